@@ -175,4 +175,13 @@ CHECKS = {
             {"pkg": "racew", "race": True, "run": "^TestC14Programs$", "quick": 40, "thorough": 1200, "shards_thorough": 4, "env": {"VERIF_C14_LOG": "info"}, "timeout_quick": 900},
         ],
     },
+    "C13": {
+        "level": "exploration",
+        "assumptions": ["loopback TCP; 'eventually reconnects' is judged with a 10 s bound after the server is reachable again",
+                        "loss detection order (reader first / writer first) is whatever the generated kills produce; no in-framework gates",
+                        "with a small budget a short outage may or may not exhaust it: both outcomes are accepted and the oracle follows the observed one"],
+        "runs": [
+            {"pkg": "core", "run": "^TestC13Redial$", "quick": 150, "thorough": 4000, "shards_thorough": 8},
+        ],
+    },
 }
